@@ -420,7 +420,7 @@ impl PollFd<'_> {
 pub use libc::{POLLERR, POLLHUP, POLLIN, POLLOUT};
 
 pub fn poll(fds: &mut [PollFd<'_>], mut timeout: Option<Duration>) -> Result<usize> {
-    let deadline = timeout.map(|timeout| Instant::now() + timeout);
+    let deadline = timeout.and_then(|timeout| Instant::now().checked_add(timeout));
     loop {
         // poll() accepts a maximum timeout of 2**31-1 ms, which is
         // less than 25 days.  The caller can specify Durations much
